@@ -136,6 +136,7 @@ class Decl:
             if p["parent"] not in w.types:
                 raise KeyError(p["parent"])
             t = w.declare_base_type(p["name"], p.get("ref"))
+            t.subclass_of = p["parent"]
             if p.get("ref"):
                 p["ref_eff"] = p["ref"]
             return t
